@@ -1,6 +1,7 @@
 """C15: serialise -> load round trip.  MPSerialize.tla (TLC) -> real to_string / from_source -> MPSerializeTrace.tla."""
 from __future__ import print_function
 
+import io
 import json
 import os
 import re
@@ -113,7 +114,7 @@ def check_C15(tier):
                 text = p1.to_string()
                 proj1 = project_program(p1)
             except BaseException as e:
-                records.append({"id": rid, "mode": mode, "reparsed": ["err", "to_string:" + type(e).__name__], "same": False, "sameresults": False})
+                records.append({"id": rid, "mode": mode, "reparsed": ["err", "to_string:" + type(e).__name__], "same": False, "sameresults": False, "filesame": True})
                 info[rid] = (pa, text, "to_string raised %s: %s" % (type(e).__name__, e))
                 continue
             try:
@@ -122,10 +123,24 @@ def check_C15(tier):
                 proj2 = project_program(p2)
                 rep = ["ok", ""]
             except BaseException as e:
-                records.append({"id": rid, "mode": mode, "reparsed": ["err", type(e).__name__], "same": False, "sameresults": False})
+                records.append({"id": rid, "mode": mode, "reparsed": ["err", type(e).__name__], "same": False, "sameresults": False, "filesame": True})
                 info[rid] = (pa, text, "%s: %s" % (type(e).__name__, str(e)[:200]))
                 continue
             same = json.dumps(proj1, default=str) == json.dumps(proj2, default=str)
+            # to_file, by path and by file object: what is in the file when the call has returned is the serialisation
+            filesame = True
+            if rid % 3 == 0:
+                try:
+                    fp = os.path.join(wd, "tofile_%d.mpt" % rid)
+                    p1.to_file(fp)
+                    with io.open(fp, encoding="utf-8") as fh:
+                        t1 = fh.read()
+                    buf = io.StringIO()
+                    p1.to_file(buf)
+                    filesame = (t1 == text) and (buf.getvalue() == text) and not buf.closed
+                    os.unlink(fp)
+                except BaseException as e:
+                    filesame = False
             try:
                 p1.run()
                 p2.run()
@@ -136,7 +151,7 @@ def check_C15(tier):
                 why_run = "run raised %s: %s" % (type(e).__name__, str(e)[:300])
             else:
                 why_run = None
-            records.append({"id": rid, "mode": mode, "reparsed": rep, "same": bool(same), "sameresults": bool(sr)})
+            records.append({"id": rid, "mode": mode, "reparsed": rep, "same": bool(same), "sameresults": bool(sr), "filesame": bool(filesame)})
             info[rid] = (pa, text, why_run if why_run else None if same else "cleaned values differ:\n%s\n%s" % (proj1[-1], proj2[-1]))
     for mode, n in sorted(nskip.items()):
         chk.note("shape-drift: %d programs could not be constructed in mode %s and were skipped" % (n, mode))
